@@ -31,6 +31,10 @@ PROPERTIES = {
             "manager with a write error; in the reference every exchange must come from the serving thread and a block may start "
             "with a re-opening of the link only after a device-error reply",
             "replies_not_crossed: the protocol object is a stub whose outcome per client is a solver variable (6 kinds)",
+            "'fatal' sets: the device answers a sign command with status 0x6F01 (reply -906, shutdown); clients accepted later must "
+            "receive nothing and the device log holds nothing but the served requests' blocks",
+            "the simulated transport answers each exchange atomically: defects that need a byte stream in which a late answer "
+            "stays behind (TCP / SGX socket time-outs) are outside the claim",
         ],
         "level_text": "bounded symbolic exploration of schedules: the schedule is a vector of 14 solver variables consumed at the decision "
                       "points of the real server code; oracle = linearisability with contiguous device blocks against the sequential runs + per-request isolation replay",
